@@ -379,8 +379,15 @@ def p2_write_part(pre_len: int, exists: bool, off: int, n: int) -> bool:
     store = {'len': pre_len if exists else 0, 'exists': exists, 'ops': []}
     before = store['len']
     R.Repository._write_file_part(None, _MemPath(store), b'x' * n, off)
-    writes = [o for o in store['ops'] if o[0] == 'write']
-    ok = writes == [('write', off, n)] and store['len'] >= off + n and store['len'] >= min(before, off + n)
+    writes = [o for o in store['ops'] if o[0] == 'write' and o[2] > 0]
+    # the write calls cover [off, off+n) contiguously and in order (one call today; several, or none for an empty part, would do)
+    pos = off
+    ok = True
+    for w in writes:
+        if w[1] != pos:
+            ok = False
+        pos = pos + w[2]
+    ok = ok and pos == off + n and (n == 0 or store['len'] >= off + n) and store['len'] >= min(before, off + n)
     for o in store['ops']:
         if o[0] == 'truncate' and o[1] < before and o[1] < off + n:
             ok = False
@@ -512,7 +519,18 @@ def _expected(args):
     return out
 
 
-def roundtrip_case(sizes, kind, argcode, precode, conc, cfg, chunking):
+class _SlowLocal(Local):
+    """A store whose uploads take longer than the producer's queue time-out (a network share, a throttled link)."""
+    delay = 0.03
+
+    def upload_stream(self, *a, **k):
+        import time
+        time.sleep(self.delay)
+        return super().upload_stream(*a, **k)
+
+
+def roundtrip_case(sizes, kind, argcode, precode, conc, cfg, chunking, slow=False):
+    LocalCls = _SlowLocal if slow else Local
     with world.scratch('c01') as d:
         src = d / 'src'
         (src / 'sub' / 'deep').mkdir(parents=True)
@@ -581,7 +599,7 @@ def roundtrip_case(sizes, kind, argcode, precode, conc, cfg, chunking):
                                     hashing=cfg.get('hashing'), chunking={'min_length': chunking[0], 'max_length': chunking[1]})
 
         async def run():
-            repo = world.make_repo(Local(str(d / 'repo')), concurrent=conc)
+            repo = world.make_repo(LocalCls(str(d / 'repo')), concurrent=conc)
             with rt.silence():
                 init = await repo.init(password=b'pw', settings=settings, key_output_path=None)
             snap = await repo.snapshot(paths=list(args))
@@ -664,6 +682,42 @@ def e_cfg(k: int) -> bool:
     with NoTracing():
         # the third file is large enough (hundreds of chunks) to fill the producer queue (10 x concurrency) several times
         return _e('e_cfg', [[0, 9, 40][i0], 12, [21, 700, 333][(cfgi + chi) % 3]], 1, 0, 0, [1, 2, 5][conci], cfgi, chi)
+
+
+def e_slow(k: int) -> bool:
+    """Uploads slower than the producer's 25 ms queue time-out, more chunks than the queue holds (10 x concurrency).
+    pre: 0 <= k < 2 * 2 * 2
+    post: _
+    """
+    ci, cfgi, si = digits(k, [2, 2, 2])
+    with NoTracing():
+        conc = [1, 2][ci]
+        sizes = [0, 9, [170, 260][si] * conc]
+        ok, msg = roundtrip_case(sizes, 0, 0, 0, conc, CONFIGS[cfgi], (4, 8), slow=True)
+        tick('e_slow', [sizes, conc, cfgi])
+        if not ok:
+            _say(msg[:600])
+        return ok
+
+
+PIECE = 16_777_216   # the read-piece size of _stream_files at the pinned commit (other piece sizes make these plain large files)
+BIG = [PIECE - 1, PIECE, PIECE + 1, PIECE + 4, 2 * PIECE, 2 * PIECE + 5]
+
+
+def e_piece(k: int) -> bool:
+    """File sizes around (multiples of) the read-piece size, followed by further files in the stream: round trip exact.
+    pre: shard(6 * 2 * 2 * 2)[0] <= k < shard(6 * 2 * 2 * 2)[1]
+    post: _
+    """
+    bi, kind, cfgi, second = digits(k, [6, 2, 2, 2])
+    with NoTracing():
+        # with `second`, two files of the same large size follow each other (the second starts at a piece boundary of its own)
+        sizes = [5, BIG[bi] if second else 9, BIG[bi]]
+        ok, msg = roundtrip_case(sizes, [0, 2][kind], 0, 0, 2, CONFIGS[[0, 1][cfgi]], (65536, 1 << 20))
+        tick('e_piece', [sizes, kind, cfgi])
+        if not ok:
+            _say(msg[:600])
+        return ok
 
 
 FULL_RADICES = [11, 11, 3, 4, 10, 6, 3, 5, 5]
